@@ -261,7 +261,7 @@ struct Config {
   const char* one_cell = "";
   u64 one_idx = 0;
   u64 budget = 2000000;  // resumes per case (fiber) before "inconclusive"
-  int hang_s = 60;       // watchdog per case (wall clock; firing = inconclusive, never a violation by itself)
+  int hang_s = VF_FIBER ? 60 : 20;      // watchdog per case (wall clock; firing = inconclusive, never a violation by itself)
   bool verbose = false;
   unsigned batch = 0;
 };
@@ -718,6 +718,32 @@ struct CaseResult {
 
 #if VF_TSAN
 inline std::atomic<u64> g_tsan_count{0};
+inline const char* g_errpath = nullptr;
+inline off_t g_err_off = 0;
+// text the sanitizer appended to this worker's stderr file since the last call
+inline std::string NewStderr(std::size_t max) {
+  std::string s;
+  if (g_errpath == nullptr) {
+    return s;
+  }
+  int fd = open(g_errpath, O_RDONLY);
+  if (fd < 0) {
+    return s;
+  }
+  off_t end = lseek(fd, 0, SEEK_END);
+  if (end > g_err_off) {
+    std::size_t n = static_cast<std::size_t>(end - g_err_off);
+    if (n > max) {
+      n = max;
+    }
+    s.resize(n);
+    ssize_t r = pread(fd, s.data(), n, g_err_off);
+    s.resize(r > 0 ? static_cast<std::size_t>(r) : 0);
+    g_err_off = end;
+  }
+  close(fd);
+  return s;
+}
 #endif
 
 // Executes the cell body once (pass 0) or again (pass 1) with identical random choices.
@@ -790,8 +816,17 @@ inline CaseResult Execute(const Cell& cell, int cell_id, u64 idx, int pass, bool
   u64 tsan = g_tsan_count.load(kRlx) - tsan0;
   if (tsan != 0) {
     g_shm->tsan_reports.fetch_add(tsan, kRlx);
-    ctx.Fail("tsan-race", "C04", "%llu ThreadSanitizer report(s) during this case (see stderr log)",
-             (unsigned long long)tsan);
+    std::string rep = NewStderr(60000);
+    // keep the head of the first report and every SUMMARY line
+    std::string brief = rep.substr(0, 700);
+    std::size_t pos = 0;
+    while ((pos = rep.find("SUMMARY:", pos)) != std::string::npos) {
+      auto e = rep.find('\n', pos);
+      brief += "\n" + rep.substr(pos, e == std::string::npos ? std::string::npos : e - pos);
+      pos = e == std::string::npos ? rep.size() : e;
+    }
+    ctx.Fail("tsan-race", "C04", "%llu ThreadSanitizer report(s) during this case:\n%s", (unsigned long long)tsan,
+             brief.c_str());
   }
 #endif
   res.failed = ctx.failed;
@@ -964,6 +999,10 @@ inline void ChildBatch(const Batch& b, int slot, const char* errpath) {
     close(fd);
   }
   std::set_terminate(TerminateHandler);
+#if VF_TSAN
+  g_errpath = errpath;
+  g_err_off = 0;
+#endif
   const Cell& cell = Cells()[static_cast<std::size_t>(b.cell)];
   for (u64 i = b.begin; i < b.end; ++i) {
     RunCase(cell, b.cell, i);
@@ -1268,6 +1307,8 @@ inline int Main(int argc, char** argv, const char* family) {
   int active = 0;
   bool complete = true;
   int total_restarts = 0;
+  int hangs = 0;
+  bool aborted = false;
   auto spawn = [&](int slot, const Batch& b) {
     auto& r = run[static_cast<std::size_t>(slot)];
     r.b = b;
@@ -1294,6 +1335,17 @@ inline int Main(int argc, char** argv, const char* family) {
     active++;
   };
   while (qpos < queue.size() || active > 0) {
+    if (!aborted && (hangs >= 3 || g_shm->viol_total.load(kRlx) >= 3000)) {
+      // enough evidence of breakage: stop scheduling, the run is marked incomplete
+      aborted = true;
+      complete = false;
+      qpos = queue.size();
+      for (int s = 0; s < g_cfg.jobs; ++s) {
+        if (run[static_cast<std::size_t>(s)].pid != 0) {
+          kill(run[static_cast<std::size_t>(s)].pid, SIGTERM);
+        }
+      }
+    }
     for (int s = 0; s < g_cfg.jobs && qpos < queue.size(); ++s) {
       if (run[static_cast<std::size_t>(s)].pid == 0) {
         spawn(s, queue[qpos++]);
@@ -1331,6 +1383,10 @@ inline int Main(int argc, char** argv, const char* family) {
     auto& r = run[static_cast<std::size_t>(slot)];
     r.pid = 0;
     active--;
+    if (aborted) {
+      unlink(r.err.c_str());
+      continue;
+    }
     bool ok = WIFEXITED(status) && WEXITSTATUS(status) == 0;
     if (ok) {
       unlink(r.err.c_str());
@@ -1348,6 +1404,7 @@ inline int Main(int argc, char** argv, const char* family) {
       // resume budget: inconclusive, already counted
     } else if (WIFSIGNALED(status) && WTERMSIG(status) == SIGKILL) {
       g_shm->inconclusive.fetch_add(1, kRlx);
+      hangs++;
       RecordSupervisorViol(cell, idx, "hang", "",
                            "watchdog: no progress for " + std::to_string(g_cfg.hang_s) + " s (inconclusive unless it repeats)");
     } else {
@@ -1366,7 +1423,8 @@ inline int Main(int argc, char** argv, const char* family) {
     rest.restarts = r.b.restarts + 1;
     total_restarts++;
     if (rest.begin < rest.end) {
-      if (rest.restarts <= 40 && total_restarts <= 400) {
+      if (aborted) {
+      } else if (rest.restarts <= 40 && total_restarts <= 400) {
         queue.push_back(rest);
       } else {
         complete = false;  // too many aborts in this batch: the rest is skipped and the run is marked incomplete
@@ -1474,6 +1532,13 @@ extern "C" const char* __lsan_default_options() {
 #if VF_TSAN
 extern "C" const char* __tsan_default_options() {
   return "halt_on_error=0:exitcode=0:report_signal_unsafe=0:second_deadlock_stack=1:history_size=4";
+}
+// libstdc++.so is not instrumented: the atomic reference count inside std::exception_ptr is invisible to TSan, so the
+// final release (free of the exception object) looks unordered with earlier readers.  Not a library property.
+extern "C" const char* __tsan_default_suppressions() {
+  return "race:std::__exception_ptr::exception_ptr::_M_release\n"
+         "race:std::__exception_ptr::exception_ptr::_M_addref\n"
+         "race:std::rethrow_exception\n";
 }
 extern "C" void __tsan_on_report(void*) {
   vf::g_tsan_count.fetch_add(1, vf::kRlx);
